@@ -429,23 +429,27 @@ theorem dsnLoop_first (b : Bitmap) (c : Nat) (req pcm : Int) (fuel : Nat) (i r :
 
 theorem determineSlotNumbers_geti (b : Bitmap) (hwf : b.WF) (n req pcm r : Int)
     (h : determineSlotNumbers b n req pcm = .ok r) :
-    ∃ c : Nat, b.nMin + (c : Int) = n ∧ dsnLoop b c req pcm (b.cells.length + 1 + 1) pcm = .ok r := by
+    r = 0 ∨ ∃ c : Nat, b.nMin + (c : Int) = n ∧ dsnLoop b c req pcm (b.cells.length + 1 + 1) pcm = .ok r := by
   unfold determineSlotNumbers at h
   have hg := Bitmap.geti_WF b hwf n
   cases hgi : b.geti n with
-  | none => rw [hgi] at h; cases h
+  | none =>
+    rw [hgi] at h
+    left
+    simpa [pure, Except.pure] using h.symm
   | some c =>
     rw [hgi] at h
     rw [hgi] at hg
     split at hg
     · next hin =>
       have : c = (n - b.nMin).toNat := by simpa using hg
-      exact ⟨c, by omega, h⟩
+      exact Or.inr ⟨c, by omega, h⟩
     · cases hg
 
 theorem determineSlotNumbers_pos (b : Bitmap) (hwf : b.WF) (n req pcm r : Int)
     (h : determineSlotNumbers b n req pcm = .ok r) (hr : 0 < r) : RangeOK b n r := by
-  obtain ⟨c, hc, hl⟩ := determineSlotNumbers_geti b hwf n req pcm r h
+  rcases determineSlotNumbers_geti b hwf n req pcm r h with h0 | ⟨c, hc, hl⟩
+  · omega
   rcases dsnLoop_spec b c req pcm _ _ _ hl with h' | h'
   · omega
   · have := centredFree_true b hwf c r hr h'
@@ -453,7 +457,8 @@ theorem determineSlotNumbers_pos (b : Bitmap) (hwf : b.WF) (n req pcm r : Int)
 
 theorem determineSlotNumbers_fixed (b : Bitmap) (hwf : b.WF) (n m av : Int)
     (h : determineSlotNumbers b n m m = .ok av) (hav : av ≠ 0) (hm : 0 < m) : RangeOK b n m := by
-  obtain ⟨c, hc, hl⟩ := determineSlotNumbers_geti b hwf n m m av h
+  rcases determineSlotNumbers_geti b hwf n m m av h with h0 | ⟨c, hc, hl⟩
+  · exact absurd h0 hav
   have := dsnLoop_first b c m m _ m av hl (by omega)
   have := centredFree_true b hwf c m hm this
   rwa [hc] at this
@@ -503,18 +508,17 @@ theorem selectOne_sound (t : Bitmap) (hwf : t.WF) (e : Entry) (rem pcm : Int) (p
         obtain ⟨rfl, rfl⟩ := this
         exact ⟨determineSlotNumbers_pos t hwf _ _ _ _ hd hm, by simp [Honoured, hem, hen]⟩
   · next hem hen =>
-    simp only [bind, Except.bind] at h
-    cases hd : spectrumSelection t rem pol with
-    | error err => rw [hd] at h; cases h
-    | ok o =>
-      rw [hd] at h
-      cases o with
-      | none => cases h
-      | some n0 =>
-        simp only at h
-        split at h
-        · cases h
-        · have : n0 = n ∧ rem = m := by simpa [pure, Except.pure] using h
+    split at h
+    · cases h
+    · simp only [bind, Except.bind] at h
+      cases hd : spectrumSelection t rem pol with
+      | error err => rw [hd] at h; cases h
+      | ok o =>
+        rw [hd] at h
+        cases o with
+        | none => cases h
+        | some n0 =>
+          have : n0 = n ∧ rem = m := by simpa [pure, Except.pure] using h
           obtain ⟨rfl, rfl⟩ := this
           exact ⟨spectrumSelection_sound t hwf _ hm pol _ hd, by simp [Honoured, hem, hen]⟩
 
